@@ -1,4 +1,4 @@
-import LekkerVerif.Proofs.WiringInv
+import LekkerVerif.Proofs.WiringDetach
 
 /-! # C16 — wiring calls are validated and atomic
 
@@ -7,35 +7,11 @@ real `Solver`).  `WInv` is the consistency of the redundant views. -/
 
 namespace Wiring
 
-/-- a history of add / connect / expose calls (valid or not) from an empty solver -/
-def BuildOp : Op → Prop
-  | .add _ => True | .connect _ _ => True | .map _ _ => True | _ => False
-
-theorem mapPin_inv (w : W) (inv : WInv w) (n : Nat) (p : Pin) : WInv (mapPin w n p).1 := by
-  unfold mapPin
-  split <;> exact ⟨inv.keysConnected, inv.pinsNodup, inv.freeObj, inv.clistStructs, inv.clistNodup, inv.freeNodup,
-    inv.freeDisj, inv.clistConns⟩
-
-theorem step_inv_build (w : W) (inv : WInv w) (op : Op) (hb : BuildOp op) : WInv (step w op).1 := by
-  cases op with
-  | add i => exact addStruct_inv w inv i
-  | connect p q => exact connect_inv w inv p q
-  | map n p => exact mapPin_inv w inv n p
-  | cut i => exact absurd hb (by simp [BuildOp])
-  | remove i => exact absurd hb (by simp [BuildOp])
-
-/-- every state reached by add / connect / expose calls (accepted or rejected) is consistent -/
-theorem C16_reachable_inv (pinCounts : List Nat) (ops : List Op) (hb : ∀ op ∈ ops, BuildOp op) :
-    WInv (ops.foldl (fun w op => (step w op).1) (init pinCounts)) := by
-  have key : ∀ (ops : List Op) (w : W), WInv w → (∀ op ∈ ops, BuildOp op) →
-      WInv (ops.foldl (fun w op => (step w op).1) w) := by
-    intro ops
-    induction ops with
-    | nil => intro w inv _; exact inv
-    | cons op ops ih =>
-      intro w inv hb
-      exact ih _ (step_inv_build w inv op (hb op List.mem_cons_self)) (fun o ho => hb o (List.mem_cons_of_mem _ ho))
-  exact key ops _ (init_inv pinCounts) hb
+/-- every state reached by any history of wiring calls — add, connect, cut, remove, expose; accepted or
+rejected — is consistent -/
+theorem C16_reachable_inv (pinCounts : List Nat) (ops : List Op) :
+    WInv (ops.foldl (fun w op => (step w op).1) (init pinCounts)) :=
+  run_inv ops _ (init_inv pinCounts)
 
 /-- **atomicity**: in a consistent state, any call that is rejected leaves the whole state — the solver's
 three views, the exposure table and every structure's own tables — exactly as it was -/
@@ -73,15 +49,26 @@ theorem C16_idempotent (w : W) (inv : WInv w) (p q : Pin) (hpq : p.1 ≠ q.1) (h
     (hl : lookup w.conns p = some q) : connect w p q = (w, .ok) ∧ connect w q p = (w, .ok) :=
   connect_idempotent w inv p q hpq h hl
 
-/-- **a pin takes part in at most one connection** (proved for every history of add / connect / expose calls;
-histories containing cut / remove are covered by the step-by-step correspondence, see DESIGN.md) -/
-theorem C16_one_connection_partial (pinCounts : List Nat) (ops : List Op) (hb : ∀ op ∈ ops, BuildOp op) :
+/-- **a pin takes part in at most one connection**, after every history of wiring calls -/
+theorem C16_one_connection (pinCounts : List Nat) (ops : List Op) :
     let w := ops.foldl (fun w op => (step w op).1) (init pinCounts)
     (w.conns.flatMap fun c => [c.1, c.2]).Nodup := by
   intro w
-  have inv := C16_reachable_inv pinCounts ops hb
+  have inv := C16_reachable_inv pinCounts ops
   rw [← inv.clistConns]
   exact inv.clistNodup
+
+/-- in a consistent state `connect` never stops half-way: the outcome is `ok` or a `ValueError` raised before
+anything was written, never an exception after the solver tables were updated -/
+theorem C16_connect_never_partial (w : W) (inv : WInv w) (p q : Pin) : (connect w p q).2 ≠ .exception :=
+  connect_never_partial w inv p q
+
+/-- after a rejected call the circuit can still be completed: two free pins of different structures connect -/
+theorem C16_completable_after_rejection (w : W) (inv : WInv w) (op : Op) (h : (step w op).2 ≠ .ok)
+    (p q : Pin) (hne : p.1 ≠ q.1) (hp : p ∈ w.free) (hq : q ∈ w.free) : (connect (step w op).1 p q).2 = .ok := by
+  rw [C16_atomic w inv op h]
+  obtain ⟨_, _, _, _, e⟩ := connect_full w inv p q hne hp hq
+  rw [e]
 
 /-- a connection between two pins of one structure is rejected -/
 theorem C16_no_self_connection (w : W) (p q : Pin) (h : p.1 = q.1) : connect w p q = (w, .valueError) := by
